@@ -1610,11 +1610,11 @@ macro_rules! c18_valuelist {
 /// (2) one full decode compared with the generic decoder built directly.
 #[macro_export]
 macro_rules! c18_pair_body {
-    ($impl:ident, $sched:ident, $arith:ty, $w:expr, $limit:expr, $hfn:ident, $n:expr, $xpos:expr, [$($wl:expr),*], [$($we:expr),*], $x:ident, $llrs:ident) => {{
+    ($impl:ident, $sched:ident, $arith:ty, $w:expr, $limit:expr, $hfn:ident, $n:expr, $xpos:expr, $wl:tt, $we:tt, $x:ident, $llrs:ident) => {{
         const N: usize = $n;
         let mut d1 = DecoderImplementation::$impl.build_decoder($hfn());
         // (1) the width-witness frame violates a check whatever x is
-        let rest: [f64; N - 1] = [$($wl),*];
+        let rest: [f64; N - 1] = $wl;
         let mut wl = [0.0f64; N];
         wl[0] = $x;
         let mut i = 1;
@@ -1623,7 +1623,7 @@ macro_rules! c18_pair_body {
         let exp0: u8 = if $w == 64 { ($x <= 0.0) as u8 }
             else if $w == 32 { (($x as f32) <= 0.0) as u8 }
             else { ($crate::refmodels::quantize_spec($x) <= 0) as u8 };
-        let we: [u8; N - 1] = [$($we),*];
+        let we: [u8; N - 1] = $we;
         match &r0 {
             Ok(_) => { assert!(false); }
             Err(o) => {
@@ -1649,7 +1649,7 @@ macro_rules! c18_pair_body {
 /// binary that `build_decoder` drags in).  Rows are separated by `;`.
 #[macro_export]
 macro_rules! c18_pairs {
-    ($name:ident, $stubs:ident, $limit:expr, $hfn:ident, $n:expr, $xpos:expr, [$($wl:expr),*], [$($we:expr),*], $unw:expr;
+    ($name:ident, $stubs:ident, $limit:expr, $hfn:ident, $n:expr, $xpos:expr, $wl:tt, $we:tt, $unw:expr;
      $($impl:ident, $sched:ident, $arith:ty, $w:expr);+) => {
         $crate::$stubs! { $unw,
         fn $name() {
@@ -1659,7 +1659,7 @@ macro_rules! c18_pairs {
             let mut llrs = [0.0f64; NN];
             let mut i = 0;
             while i < NN { llrs[i] = $crate::macros::any_llr_dom(); i += 1; }
-            $( $crate::c18_pair_body!($impl, $sched, $arith, $w, $limit, $hfn, $n, $xpos, [$($wl),*], [$($we),*], x, llrs); )+
+            $( $crate::c18_pair_body!($impl, $sched, $arith, $w, $limit, $hfn, $n, $xpos, $wl, $we, x, llrs); )+
         }}
     };
 }
@@ -1926,6 +1926,12 @@ pub fn vtable_of(b: &Box<dyn ldpc_toolbox::decoder::LdpcDecoder>) -> usize {
     parts.1
 }
 
+#[inline]
+pub fn vtable_of_raw(raw: *const dyn ldpc_toolbox::decoder::LdpcDecoder) -> usize {
+    let parts: (usize, usize) = unsafe { core::mem::transmute(raw) };
+    parts.1
+}
+
 #[macro_export]
 macro_rules! c18_types {
     ($name:ident, $stubs:ident, $unw:expr; $($impl:ident, $sched:ident, $arith:ty, $osched:ident);+) => {
@@ -1933,16 +1939,18 @@ macro_rules! c18_types {
         fn $name() {
             $({
                 let built = DecoderImplementation::$impl.build_decoder(h_pair1x2());
-                let expected: Box<dyn LdpcDecoder> = Box::new(ldpc_toolbox::decoder::$sched::Decoder::new(h_pair1x2(), <$arith>::new()));
-                let other: Box<dyn LdpcDecoder> = Box::new(ldpc_toolbox::decoder::$osched::Decoder::new(h_pair1x2(), <$arith>::new()));
+                // vtables of the expected and of the other-schedule decoder type, without building them:
+                // a null thin pointer unsizes to a fat pointer carrying the type's vtable
+                let expected: *const dyn LdpcDecoder = core::ptr::null::<ldpc_toolbox::decoder::$sched::Decoder<$arith>>();
+                let other: *const dyn LdpcDecoder = core::ptr::null::<ldpc_toolbox::decoder::$osched::Decoder<$arith>>();
                 let vb = $crate::macros::vtable_of(&built);
-                let ve = $crate::macros::vtable_of(&expected);
-                let vo = $crate::macros::vtable_of(&other);
+                let ve = $crate::macros::vtable_of_raw(expected);
+                let vo = $crate::macros::vtable_of_raw(other);
                 // the documented arithmetic and schedule ...
                 assert!(vb == ve);
                 // ... (sanity of the oracle: distinct types have distinct vtables)
                 assert!(ve != vo);
-                core::mem::forget(built); core::mem::forget(expected); core::mem::forget(other);
+                core::mem::forget(built);
             })+
             kani::cover!(true);
         }}
